@@ -185,7 +185,17 @@ impl Prop for Triples {
         let (y, m, d) = (c.y as i64, c.m, c.d);
         classify_triple(y, m, d, cx);
         let valid = cal::valid_in_range(y, m, d);
-        let r1 = catch(|| Date::from_ymd(c.y, m, d).map(|v| rd_date(&v)));
+        // (a constructed date is also read back: construction and read-back are two directions of
+        // one bijection, and what the one leaves behind must not steer the other)
+        let r1 = catch(|| {
+            Date::from_ymd(c.y, m, d).map(|v| {
+                let back = v.as_ymd();
+                if back != (c.y, m, d) {
+                    panic!("Date::from_ymd({}, {}, {}) reads back as {:?}", c.y, m, d, back);
+                }
+                rd_date(&v)
+            })
+        });
         let r2 = catch(|| DateTime::from_ymd(c.y, m, d).map(|v| (v.timestamp(), v.as_hms(), v.nano())));
         let want_day = if valid { Some(cal::days_from_ymd(y, m, d)) } else { None };
         for (api, r) in [
